@@ -1,8 +1,16 @@
 (* Check_C17.v — executable side of C17: the case type (a library case as in Check_Lib.v plus
    what `Graph::squash` and the CLI path returned for some (key, depth) pairs), the
    correspondence model = observed, and the property predicates evaluated on the
-   implementation's own observations. *)
+   implementation's own observations.
+
+   Stages 5-8 tie TreeBuild.v (the transliteration of `GraphBuilder::insert_from_iter` over a
+   `TreeIter`, about which TreeBuildFacts.v proves C20_collect_build / C17_squash_cli_graph /
+   C08_patch_export_is_export_tree) to the code SLOT BY SLOT: the harness dumps the arena of the
+   fresh graph after `build_key_from_iter` and the tree `collect`ed back from it, for every
+   squashed tree of the CLI path and for a stream of hand-made trees (valid ones, leaves with
+   children, inner Document nodes, roots that are not documents). *)
 From IweV Require Export Str Text Ast RelPath Arena Project Library Harness Check_Lib Squash.
+From IweV Require Import ArenaWF SectionsRefine HistoryText Rename TreeBuild.
 Local Open Scope string_scope.
 Local Open Scope list_scope.
 
@@ -18,10 +26,21 @@ Record sq_obs := SO {
   so_outcome : nat;           (* of Graph::squash *)
   so_tree : res tree;         (* Graph::squash(key, depth) *)
   so_cli_outcome : nat;       (* of build_key_from_iter + export_key on a fresh graph *)
-  so_text : res string        (* what `iwe squash` prints *)
+  so_text : res string;       (* what `iwe squash` prints *)
+  so_arena : res arena;       (* every slot of the fresh graph after build_key_from_iter(key, squashed tree) *)
+  so_back : res tree          (* Graph::collect(key) on that graph *)
 }.
 
-Record case := Case { c_lib : libcase; c_obs : list sq_obs }.
+(* a tree handed to `Graph::new().build_key_from_iter(key, TreeIter::new(&tree))` and what the
+   implementation made of it (Panic: the call panicked, with the message) *)
+Record tb_obs := TB {
+  tb_key : string;
+  tb_tree : tree;
+  tb_arena : res arena;       (* every slot: kind (with its lines), prev, next, child *)
+  tb_back : res tree          (* Graph::collect(key) on that graph *)
+}.
+
+Record case := Case { c_lib : libcase; c_obs : list sq_obs; c_tb : list tb_obs }.
 
 (* ---------- helpers ---------------------------------------------------------------------- *)
 
@@ -38,6 +57,8 @@ Fixpoint is_subseq {A} (eq : A -> A -> bool) (a b : list A) : bool :=
   end.
 
 (* the notes' collected trees as the implementation returned them *)
+Definition nodupN (l : list N) : list N := nodup N.eq_dec l.
+
 Definition lk_obs (c : libcase) : lookup :=
   fun k => match find (fun o => String.eqb (no_key o) k) (lo_notes c) with
            | Some o => match no_tree o with Ok t => Some t | Panic _ => None end
@@ -130,7 +151,61 @@ Definition obs_fail (lk : lookup) (o : sq_obs) : list N :=
    repaired - the level is a usize - so a CLI failure on such a tree is a violation like any
    other. *)
 
-Definition nodupN (l : list N) : list N := nodup N.eq_dec l.
+(* ---------- tree -> arena: TreeBuild.v against the code, slot by slot ------------------------ *)
+
+(* the observations of the CLI path whose squashed tree was printed, and the hand-made trees *)
+Definition so_tb (o : sq_obs) : list tb_obs :=
+  match so_tree o with
+  | Ok t => [TB (so_key o) t (so_arena o) (so_back o)]
+  | Panic _ => []
+  end.
+Definition all_tb (c : case) : list tb_obs := flat_map so_tb (c_obs c) ++ c_tb c.
+
+(* the model: `build_key_from_iter` on the arena of `Graph::new()` *)
+Definition tb_model_arena (o : tb_obs) : res arena :=
+  do st <- build_key_from_iter [] (tb_key o) (tb_tree o); Ok (b_arena st).
+
+(* 5: the model's arena = the observed arena, slot by slot (kind, lines, prev, next, child; the
+   equality of Check_Lib stage 1); a panic of the one is a panic of the other *)
+Definition tb_arena_ok (o : tb_obs) : bool :=
+  res_eqb arena_eqb (tb_model_arena o) (tb_arena o).
+
+(* 6: the statement of C20_collect_build / build_returns_iff evaluated on the IMPLEMENTATION's
+   arena: the call returned iff the tree is [buildable], and then the model's `collect_raw` of the
+   observed arena at the new root 0 is [label (built_tree key t) 0], the arena has exactly that
+   many slots and satisfies the executable forest invariant *)
+Definition tb_collect_ok (o : tb_obs) : bool :=
+  match tb_arena o with
+  | Ok a =>
+      buildable (tb_tree o) &&
+      res_eqb (option_eqb tree_eqb) (collect_raw a 0) (Ok (Some (label (built_tree (tb_key o) (tb_tree o)) 0))) &&
+      Nat.eqb (length a) (tsz (built_tree (tb_key o) (tb_tree o))) &&
+      arena_ok a
+  | Panic _ => negb (buildable (tb_tree o))
+  end.
+
+(* 7: what the implementation's own `Graph::collect` read back from its arena is the built tree
+   renumbered from 0, link texts refreshed from the (empty) title table of the fresh graph: the
+   statement of TreeBuildFacts.collect_built *)
+Definition tb_back_ok (o : tb_obs) : bool :=
+  match tb_arena o with
+  | Ok _ => res_eqb tree_eqb (tb_back o)
+              (Ok (label (tmap (norm_node no_titles) (built_tree (tb_key o) (tb_tree o))) 0))
+  | Panic _ => negb (is_ok (tb_back o))
+  end.
+
+(* 8: where both panic, the model's site ("cant set child", TreeBuildFacts.build_panics) is how
+   the implementation's message starts ("cant set child for leaf" ...) *)
+Definition tb_site_ok (o : tb_obs) : bool :=
+  match tb_model_arena o, tb_arena o with
+  | Panic m, Panic m' => String.prefix m m'
+  | _, _ => true
+  end.
+
+(* stages 5-8 over a list of observations (each predicate once per tree) *)
+Definition tb_corr (l : list tb_obs) : list N :=
+  flag 5 (forallb tb_arena_ok l) ++ flag 6 (forallb tb_collect_ok l) ++
+  flag 7 (forallb tb_back_ok l) ++ flag 8 (forallb tb_site_ok l).
 
 (* ---------- correspondence ---------------------------------------------------------------- *)
 
@@ -146,7 +221,7 @@ Definition c17_corr (c : case) : list N :=
       (* the two models agree on this library (theorem C17_equation, re-evaluated) *)
       flag 4 (forallb (fun o => res_eqb tree_eqb (squash g (so_key o) (so_depth o))
                                   (squash_spec g (so_key o) (so_depth o))) (c_obs c))
-  end.
+  end ++ tb_corr (all_tb c).
 
 Definition run_C17 (c : case) : verdict :=
   let lk := lk_obs (c_lib c) in
@@ -157,7 +232,9 @@ Definition run_C17 (c : case) : verdict :=
     existsb (fun o => match lk (so_key o) with
                       | Some R => Nat.ltb 0 (so_depth o) && negb (match targets lk R with [] => true | _ => false end)
                       | None => false
-                      end) (c_obs c) in
+                      end) (c_obs c) ||
+    (* or: a hand-made tree with something below its root went through the builder *)
+    existsb (fun o => Nat.ltb 1 (tree_nodes (tb_tree o))) (c_tb c) in
   V (c17_corr c) prop cls nontriv.
 
 (* diagnosis *)
@@ -168,3 +245,8 @@ Definition dbg_model (c : case) : list (string * nat * res tree * res tree) :=
   end.
 Definition dbg_fail (c : case) : list (string * nat * list N) :=
   map (fun o => (so_key o, so_depth o, obs_fail (lk_obs (c_lib c)) o)) (c_obs c).
+(* per tree of stages 5-8: which of them fail, the model's arena, the observed one *)
+Definition dbg_tb (c : case) : list (string * list N * res arena * res arena) :=
+  map (fun o => (tb_key o,
+                 flag 5 (tb_arena_ok o) ++ flag 6 (tb_collect_ok o) ++ flag 7 (tb_back_ok o) ++ flag 8 (tb_site_ok o),
+                 tb_model_arena o, tb_arena o)) (all_tb c).
